@@ -507,9 +507,18 @@ func (fd *Client) BatchGetItem(ctx context.Context, input *dynamodb.BatchGetItem
 	responses := make(map[string][]map[string]types.AttributeValue, len(input.RequestItems))
 	unprocessed := make(map[string]types.KeysAndAttributes, len(input.RequestItems))
 
-	for _, reqs := range input.RequestItems {
+	for tableName, reqs := range input.RequestItems {
 		// a request that breaks the expression rules is rejected as a whole, it is not a matter of unprocessed keys
 		err := validateExpressionAttributes(reqs.ExpressionAttributeNames, nil, aws.ToString(reqs.ProjectionExpression))
+		if err != nil {
+			return nil, mapKnownError(err)
+		}
+
+		// neither is a table that does not exist: retrying its keys can never succeed
+		fd.mu.Lock()
+		_, err = fd.getTable(tableName)
+		fd.mu.Unlock()
+
 		if err != nil {
 			return nil, mapKnownError(err)
 		}
